@@ -31,11 +31,22 @@ Layer(st, s) ==
 \* chain: sequence of import statements, outermost first; rename from the innermost outwards
 RECURSIVE Rename(_, _)
 Rename(chain, s) == IF chain = <<>> THEN s ELSE Rename(SubSeq(chain, 1, Len(chain) - 1), Layer(chain[Len(chain)], s))
+\* Whether a terminal's tokens are kept is decided by its NAME (a leading underscore filters).  Strings are atomic in TLC, so
+\* every alias comes with the flag `under`; the <module>__ prefix keeps the underscore-ness of the name it is put on.  Written
+\* out by hand, a terminal renamed to _ALIAS is filtered wherever it is used - inside the imported rules too.
+LayerKeep(st, s, keep) ==
+  LET hit == {i \in DOMAIN st.names : st.names[i].name = s}
+  IN IF hit # {} THEN ~st.names[CHOOSE i \in hit : TRUE].under ELSE keep
+RECURSIVE RenameKeep(_, _, _)
+RenameKeep(chain, s, keep) ==
+  IF chain = <<>> THEN keep
+  ELSE RenameKeep(SubSeq(chain, 1, Len(chain) - 1), Layer(chain[Len(chain)], s), LayerKeep(chain[Len(chain)], s, keep))
 
 \* rename every symbol of an expression; parameters of the enclosing template (params) are left alone
 RECURSIVE RenameE(_, _, _)
 RenameE(chain, params, e) ==
-  CASE e.k \in {"tok", "rule"} -> IF e.name \in params THEN e ELSE [e EXCEPT !.name = Rename(chain, e.name)]
+  CASE e.k = "rule" -> IF e.name \in params THEN e ELSE [e EXCEPT !.name = Rename(chain, e.name)]
+    [] e.k = "tok" -> IF e.name \in params THEN e ELSE [e EXCEPT !.name = Rename(chain, e.name), !.keep = RenameKeep(chain, e.name, e.keep)]
     [] e.k = "seq" -> [e EXCEPT !.items = [i \in DOMAIN e.items |-> RenameE(chain, params, e.items[i])]]
     [] e.k = "alt" -> [e EXCEPT !.alts = [i \in DOMAIN e.alts |-> RenameE(chain, params, e.alts[i])]]
     [] e.k \in {"opt", "maybe", "rep"} -> [e EXCEPT !.x = RenameE(chain, params, e.x)]
